@@ -220,16 +220,20 @@ def line_for(n, rounds, cfgs, plan, t1, t2) -> str:
 
 
 # ------------------------------------------------------------------ streams
-def oracle(ck: Check, n, rounds, cfg, plan, val, ub_impl, d, rec, stream):
+def oracle(ck: Check, n, rounds, cfg, plan, val, ub_impl, d, rec, stream, scratch_ok=True, ctor_accepted=None):
     """Spec oracle C on one implementation result `val` for (plan, cfg); `d`/`rec` = driver spec tokens."""
     case = {"n": n, "rounds": rounds, "cfg": list(cfg), "plan": plan, "value": val, "stream": stream}
     if val == "OOB":
-        ck.spec(d.get("inspace") != "1", "oob", "count_errors left its arrays on a plan of the game-plan space", case)
+        ck.spec(d.get("inspace") != "1" or not scratch_ok or n < 2, "oob",
+                "count_errors left its arrays on a plan of the game-plan space (scratch arrays as allocated by Errors)", case)
         return
     ck.spec(val >= 0, "negative", f"count_errors returned {val} < 0", case)
     if d.get("inspace") != "1" or rec is None:
         return
-    accepted, feas, doc = rec[9] == "1", rec[10] == "1", int(rec[11])
+    # the quantifier is "settings the Instance constructor accepts": where a real Instance exists that is the
+    # constructor's verdict, for the raw kernel it is the (correspondence-checked) model of the constructor
+    accepted = (rec[9] == "1") if ctor_accepted is None else ctor_accepted
+    feas, doc = rec[10] == "1", int(rec[11])
     cons = d.get("cons") == "1"
     if accepted:
         ck.count("feasible" if feas else "infeasible")
@@ -280,7 +284,8 @@ def stream_exhaustive4(ck: Check, impl: Impl) -> None:
         per = mo[2:].split("/") if mo.startswith("r=") else []
         mvals = "/".join(",".join(x.split(":")[0] for x in q.split(",")) for q in per)
         ivals = "/".join(",".join(str(int(v)) for v in vals[j]) for j in range(12))
-        if not ck.compare("exh4", line, mvals, ivals) or len(per) != 12:
+        ck.compare("exh4", line, mvals, ivals)
+        if len(per) != 12:
             continue
         for j in range(12):
             toks = per[j].split(",")
@@ -318,7 +323,7 @@ def stream_objective(ck: Check, impl: Impl) -> None:
             ll = 2 * rounds - 1
             for cfg in {(1, 1, 1, 1, 0, 0), (1, ll, 1, ll, 0, ll), (1, ll, 1, ll, 1, ll), (ll, ll, 1, 1, ll, ll)}:
                 todo.append(("exh2", 2, rounds, cfg, [list(r) for r in plan]))
-    n_inst = 120 if ck.quick else 1500
+    n_inst = 500 if ck.quick else 4000
     per_inst = 8 if ck.quick else 14
     for _ in range(n_inst):
         n = rng.choice([2, 4, 4, 6, 6, 8, 10])
@@ -365,14 +370,14 @@ def stream_objective(ck: Check, impl: Impl) -> None:
             oracle(ck, n, rounds, cfg, plan, val, ub, d, None, stream)
             continue
         ck.compare(stream, line, f"accepted={rec[9]} val={rec[0]} ub={d.get('ub')}", f"accepted=1 val={val} ub={ub}")
-        oracle(ck, n, rounds, cfg, plan, val, ub, d, rec, stream)
+        oracle(ck, n, rounds, cfg, plan, val, ub, d, rec, stream, ctor_accepted=True)
 
 
 def stream_raw(ck: Check, impl: Impl) -> None:
     """Raw kernel, every configuration corner (also settings the constructor rejects), dirty scratch
     arrays of both storage types; under NUMBA_BOUNDSCHECK=1 also plans/scratch arrays outside the valid range."""
     rng, np = ck.rng, impl.np
-    n_cases = 500 if ck.quick else 12000
+    n_cases = 2000 if ck.quick else 20000
     lines, expect = [], []
     for _ in range(n_cases):
         n = rng.choice([2, 4, 4, 6, 8, 10])
@@ -396,10 +401,10 @@ def stream_raw(ck: Check, impl: Impl) -> None:
         line = line_for(n, rounds, cfgs, plan, g1, g2)
         vals = [impl.raw(plan, c, t1.copy(), t2.copy(), dtype) for c in cfgs]
         lines.append(line)
-        expect.append((n, rounds, cfgs, plan, vals))
+        expect.append((n, rounds, cfgs, plan, vals, kind in ("inspace", "entry_out_of_range")))
         ck.case(line)
     # a plan for one team: days // (teams - 1) divides by zero
-    if BOUNDSCHECK or True:
+    if True:
         line = "ttpE 1 1 ; 1 1 1 1 0 0 ;  ;  ; 0"
         try:
             impl.count_errors(np.zeros((0, 1), np.int64), 1, 1, 1, 1, 0, 0, np.zeros(0, np.int64), np.zeros((1, 1), np.int64))
@@ -407,8 +412,8 @@ def stream_raw(ck: Check, impl: Impl) -> None:
         except ZeroDivisionError:
             v = "OOB"
         lines.append(line)
-        expect.append((1, 1, [(1, 1, 1, 1, 0, 0)], [], [v]))
-    for line, (n, rounds, cfgs, plan, vals), mo in zip(lines, expect, ck.model(lines)):
+        expect.append((1, 1, [(1, 1, 1, 1, 0, 0)], [], [v], True))
+    for line, (n, rounds, cfgs, plan, vals, scratch_ok), mo in zip(lines, expect, ck.model(lines)):
         d = kv(mo)
         recs = [q.split(",") for q in d.get("r", "").split("/")]
         mvals = "/".join(r[0] for r in recs)
@@ -417,7 +422,7 @@ def stream_raw(ck: Check, impl: Impl) -> None:
             continue
         ub = (4 * (n - 1) * rounds - 1) * n - 1
         for cfg, v, rec in zip(cfgs, vals, recs):
-            oracle(ck, n, rounds, cfg, plan, v, ub, d, rec if len(rec) == 12 else None, "raw")
+            oracle(ck, n, rounds, cfg, plan, v, ub, d, rec if len(rec) == 12 else None, "raw", scratch_ok)
 
 
 def streams(ck: Check) -> None:
